@@ -242,6 +242,34 @@ CLAIMED = {
                 "level; a C++ function returning its `const shared_ptr<T>&` parameter (both outside the generated grammar, recorded from the builder's probes).",
         "technique": "Coq proof over a hand-written model + translator-regenerated tables (t_Ownership) + extracted-model/implementation correspondence with sanitizer oracle",
     },
+    "C01": {
+        "category": "proof",
+        "text": "For every byte string, the model of ChaiScript_Parser::parse (28 mutually recursive grammar functions over the lexer model, operator/keyword/depth tables regenerated from the "
+                "source on every run) terminates (C01_terminates: one induction on the call-depth fuel; every continuing loop iteration consumes a byte), never crashes (C01_safe: no read or "
+                "decrement outside the buffer, match stack, operator table or a node's children, no node-constructor assertion, no foreign exception), keeps the chain of nested grammar calls "
+                "within the 512-level Depth_Counter and reports excess as an error (C01_depth_*), and accounts for the whole input: a successful parse is a File node with the cursor at the end "
+                "or the Noop node of a trivia-only input (C01_accounts for every input not starting with `#!`; C01_accounts_partial for all inputs). Tie: ~44k (quick) / ~140k (thorough) inputs "
+                "per run, ASan/UBSan parser vs extracted model, tree for tree; oracle independent of the model (trivia automaton, end position, expected file name).",
+        "design_ref": "DESIGN.md §6 C01, §11",
+        "note": "Hand port of the grammar layer (ParserDefs.v), tied by the correspondence only. Missing: the shebang-loop lemma for inputs starting with `#!`. The amount of work is exponential in "
+                "inline-container nesting (known finding) and left-deep chains are not depth-limited (known finding: the tree overflows the native stack when destroyed/evaluated). No axioms.",
+        "technique": "Coq proofs over a hand-ported grammar + source-regenerated tables + extracted-model/implementation correspondence under sanitizers",
+    },
+    "C20": {
+        "category": "proof",
+        "text": "Parser side: Position ++/-- keep (line, col) equal to their definition from the byte index at every use site incl. the two decrements of Dot_Fun_Array (C20_inc, C20_dec, "
+                "C20_dec_sites); an Id token records the coordinates of its first byte, build_match gives a node the start of its first child (or the current position), the current file name "
+                "and all children, and these invariants hold in every reachable parser state (C20_node_start_partial; the tree-wide composition is not proved). Evaluator side: the wrapper "
+                "AST_Node_Impl::eval appends exactly the node being left to an eval_error's call stack and changes nothing else (C20_wrapper_appends_the_node), hence for every tree, state and "
+                "depth the stack lists the active constructs innermost first (C20_call_stack_innermost_first), and an unresolvable identifier yields an error whose only entry is the identifier's "
+                "own position (C20_unresolved_identifier_points_at_itself). Tie + oracle: 704 / 6004 generated multi-file, multi-line programs with one injected fault, optimizer on and off: "
+                "call_stack[0] and every call-site entry must equal generator ground truth (coordinates computed by the extracted specification); full tree equality model vs implementation on "
+                "every chunk; whole call stacks (kind, line, col of every entry) of generated failing programs compared with the Coq evaluator.",
+        "design_ref": "DESIGN.md §6 C20, §11",
+        "note": "The tree-wide induction composing the three node-start facts is missing (label _partial). File names in call stacks are compared on the implementation against ground truth; the "
+                "evaluator model is single-file. No axioms.",
+        "technique": "Coq proofs (lexer position arithmetic, build_match rule, evaluator trace wrapper) + ground-truth correspondence + extracted-evaluator call-stack comparison",
+    },
 }
 PENDING_REASON = "check not built yet in this round (work in progress; see DESIGN.md §6 for the planned Coq model and tie)"
 ALL = ["C%02d" % i for i in range(1, 21)]
